@@ -150,8 +150,13 @@ public:
         op_counter++;
 
         // Normalize
+        // If v0 is in the null space of A (e.g. A is a zero or nilpotent matrix),
+        // A * v0 is zero and cannot be normalized: start from v0 itself
         const RealScalar vnorm = m_op.norm(v);
-        v /= vnorm;
+        if (vnorm < m_near_0)
+            v.noalias() = v0 / v0norm;
+        else
+            v /= vnorm;
 
         // Compute H and f
         Vector w(m_n);
